@@ -55,7 +55,9 @@ CHECKS = {
              'monitors check strict index order, the outstanding bound, no use of cancelled tasks and an empty client.',
         note='Trusted: the environment model (tasks finish one at a time at client API calls, truthful is_ready, no task '
              'failure); soundness of visited-state merging (canonical sampler+client state), cross-checked against '
-             'unpruned trees. Real worker processes only in the thorough free-running cross-check.',
+             'unpruned trees. Real worker processes only in the thorough free-running cross-check. Seeds are chosen so '
+             'that the sequential run consumes 2-9 batches (tree size is exponential in it); every tree has an '
+             'execution cap that is reported if hit.',
         design_ref='4 C04'),
     'C05': dict(
         level='model_checking',
@@ -213,7 +215,9 @@ CHECKS = {
         text='All reachable cache states of the real sub-seed function for every (seed, high<=5/8) are enumerated to '
              'closure; in each state every index (incl. negative and >= high) is requested and compared with the '
              'cache-free answer; range, injectivity and rejection are checked on the complete index range. Small high '
-             'forces the duplicate-skipping loop on every run. Bounded: seeds and highs listed in evidence.',
+             'forces the duplicate-skipping loop on every run. A caller section runs BOLFI.sample on evidence sets whose best '
+             'points are / are not usable as chain starts: the seed of chain number i must not change. Bounded: seeds '
+             'and highs listed in evidence.',
         note='Trusted: numpy RandomState determinism; canonical cache state = full structural digest of the cache '
              'dict (seen set + generator state). Default high=2**31 only exercised on indices < 200.',
         design_ref='4 C15'),
